@@ -991,5 +991,38 @@ theorem caseVariantFrom_symm : ∀ (as bs : List PTok) (p2 p1 q2 q1 : Tok), Tok.
     rw [← caseFreeAfter_congr h2 h1]
     exact hv'
 
+/-! ### a vector and its case variant have the same lower-case spelling -/
+
+theorem Tok.caseVar_lower {f : Bool} {a b : Tok} (h : Tok.caseVar f a b = true) :
+    a.ren lowerChars = b.ren lowerChars := by
+  rcases Tok.caseVar_cases h with rfl | ⟨_, i, j, rfl, rfl, hl⟩
+  · rfl
+  · simp only [Tok.ren, hl]
+
+/-- spelling every identifier in lower case makes a vector and its case variant the same vector -/
+theorem caseVariantFrom_lower : ∀ (as bs : List PTok) (p2 p1 : Tok),
+    caseVariantFrom p2 p1 as bs = true → as.map (PTok.ren lowerChars) = bs.map (PTok.ren lowerChars)
+  | [], [], _, _, _ => rfl
+  | [], _ :: _, _, _, h => by simp [caseVariantFrom] at h
+  | _ :: _, [], _, _, h => by simp [caseVariantFrom] at h
+  | a :: as, b :: bs, p2, p1, h => by
+    simp only [caseVariantFrom, Bool.and_eq_true, decide_eq_true_eq] at h
+    obtain ⟨⟨hl, hv⟩, hr⟩ := h
+    simp only [List.map_cons, List.cons.injEq]
+    refine ⟨?_, caseVariantFrom_lower as bs _ _ hr⟩
+    simp only [PTok.ren, hl, Tok.caseVar_lower hv]
+
+/-- the relation does not look at locations beyond comparing them: it survives resetting them -/
+theorem caseVariantFrom_strip : ∀ (as bs : List PTok) (p2 p1 : Tok), caseVariantFrom p2 p1 as bs = true →
+    caseVariantFrom p2 p1 (as.map PTok.strip) (bs.map PTok.strip) = true
+  | [], [], _, _, _ => rfl
+  | [], _ :: _, _, _, h => by simp [caseVariantFrom] at h
+  | _ :: _, [], _, _, h => by simp [caseVariantFrom] at h
+  | a :: as, b :: bs, p2, p1, h => by
+    simp only [caseVariantFrom, Bool.and_eq_true, decide_eq_true_eq] at h
+    obtain ⟨⟨_, hv⟩, hr⟩ := h
+    simp only [List.map_cons, caseVariantFrom, Bool.and_eq_true, decide_eq_true_eq]
+    exact ⟨⟨rfl, hv⟩, caseVariantFrom_strip as bs _ _ hr⟩
+
 end Parse
 end Sqlgrep
